@@ -23,6 +23,7 @@ import (
 
 	"github.com/sirupsen/logrus"
 
+	"hop.computer/hop/pkg/verifhook"
 	"hop.computer/hop/tubes"
 
 	"verif/harness/bub"
@@ -479,7 +480,102 @@ func dupAckThenClose(r *vh.Runner, c *vh.Case, i int) {
 	}
 }
 
+// slowSenderCloseRun (real time): a closing goroutine is held up for tens of
+// milliseconds at the instrumented point inside sender.Close, between marking
+// the sender closed and stopping its retransmission ticker, so that ticks fire
+// meanwhile; the workload is a plain write / close / close / stop on a
+// loss-free link. WaitForClose and Stop return.
+func slowSenderCloseRun(r *vh.Runner, c *vh.Case, i int) {
+	rng := vh.NewRand(r.Seed, "c16-slowclose", i)
+	delay := time.Duration(rng.Pick(5, 20, 40, 80)) * time.Millisecond
+	prev := verifhook.Install(&verifhook.Handler{Yield: func(point string) {
+		if point == "tubes.sender.Close:cas" {
+			time.Sleep(delay)
+		}
+	}})
+	defer verifhook.Install(prev)
+	nw := msgnet.NewPair()
+	A := tubes.Client(nw.A, &tubes.Config{Timeout: 30 * time.Second, Log: quietLog()})
+	B := tubes.Server(nw.B, &tubes.Config{Timeout: 30 * time.Second, Log: quietLog()})
+	acc := make(chan tubes.Tube, 4)
+	go func() {
+		for {
+			t, err := B.Accept()
+			if err != nil {
+				return
+			}
+			acc <- t
+		}
+	}()
+	a, err := A.CreateReliableTube(3)
+	if err != nil {
+		c.Inconclusive("create: " + err.Error())
+		return
+	}
+	var b tubes.Tube
+	select {
+	case b = <-acc:
+	case <-time.After(5 * time.Second):
+		c.Inconclusive("accept timed out")
+		go A.Stop()
+		go B.Stop()
+		return
+	}
+	go io.Copy(io.Discard, b)
+	go io.Copy(io.Discard, a)
+	for k := 0; k < 1+rng.Intn(20); k++ {
+		a.Write(rng.Bytes(1 + rng.Intn(3000)))
+		if rng.Bool() {
+			b.Write(rng.Bytes(1 + rng.Intn(500)))
+		}
+	}
+	time.Sleep(time.Duration(rng.Intn(30)) * time.Millisecond)
+	r.Count("evaluations", 1)
+	r.Count("closes_with_a_slow_sender_close", 1)
+	r.Nontrivial(fmt.Sprintf("slowclose|%d", i))
+	detail := map[string]any{"delay_in_sender_close": delay.String()}
+	call := func(name string, f func()) bool {
+		done := make(chan struct{})
+		go func() { f(); close(done) }()
+		select {
+		case <-done:
+			return true
+		case <-time.After(20 * time.Second):
+			same, dump := vh.StuckIn(3*time.Second, "hop/tubes.")
+			if !same {
+				c.Inconclusive("real-time slow-close case slow but still moving: " + name)
+				return false
+			}
+			detail["goroutine_dump"] = dump
+			detail["state_a"], detail["state_b"] = stateName(a), stateName(b.(*tubes.Reliable))
+			c.Violate("C16:call-does-not-return:"+name+":slow-sender-close", detail)
+			return false
+		}
+	}
+	first, second := tubes.Tube(a), b
+	if rng.Bool() {
+		first, second = b, a
+	}
+	ok := call("Tube.Close", func() { first.Close(); time.Sleep(time.Duration(rng.Intn(5)) * time.Millisecond); second.Close() }) &&
+		call("Tube.WaitForClose", func() { a.WaitForClose(); b.WaitForClose() })
+	if ok {
+		call("Muxer.Stop", func() {
+			done := make(chan struct{})
+			go func() { B.Stop(); close(done) }()
+			A.Stop()
+			<-done
+		})
+	} else {
+		go A.Stop()
+		go B.Stop()
+	}
+}
+
 func genC16(r *vh.Runner) {
+	nsc := r.Pick(8, 300)
+	for i := 0; i < nsc; i++ {
+		r.Case(fmt.Sprintf("slow-sender-close/%d", i), map[string]any{"case": i}, func(c *vh.Case) { slowSenderCloseRun(r, c, i) })
+	}
 	na := r.Pick(6, 150)
 	for i := 0; i < na; i++ {
 		r.Case(fmt.Sprintf("dup-ack-storm-then-close/%d", i), map[string]any{"case": i}, func(c *vh.Case) {
